@@ -104,6 +104,13 @@ def run(ctx):
         p, children, term, progs = random_scenario(rng)
         for k in range(2):
             lines.append(line(p, children, term, progs, rng.choice((0, 1, 1)), rng.randrange(1 << 30), [], []))
+    # destruction races: tiny scenarios in which the pool is destroyed while workers are still on their way into (or back into) their wait; a lost wake-up of
+    # cv_jobs_ in ~ThreadPool() needs the destructor's store and notification to fall between one worker's test of its predicate and its wait
+    # (round-5 seeded change: ~2 % of the random / PCT schedules of such a scenario show it, 0.3 % of the general ones)
+    for i in range(600 if quick else 6000):
+        kind = i % 4
+        progs = [[[("enq", 1)]], [[("enq", 1), ("lue",)]], [[("lue",)]], [[("enq", 1), ("enq", 2)]]][kind]
+        lines.append(line(rng.choice((1, 2, 3, 4)), {1: [], 2: []} if kind == 3 else {1: []}, [], progs, 1 if kind in (0, 3) else 0, rng.randrange(1 << 30), [], []))
     for ln in lines:
         ctx.count_case(ln)
     scr = ctx.path("tp_scripts.txt")
